@@ -434,6 +434,110 @@ def stream_header(ctx: Ctx) -> Stream:
 	return st
 
 
+# ---------------------------------------------------------------------------------------------
+# stream loads: the MODEL's json.loads (`loadsCodec`, the decoder header_rt_codec / loads_codec_sound are proved for) against CPython's
+
+
+class _Pairs(list):		# an object as the list of its pairs, in the order and multiplicity written
+	pass
+
+
+def _dump_pairs(v: Any) -> str:
+	if isinstance(v, _Pairs):
+		return '{' + ','.join(f'{json.dumps(k)}:{_dump_pairs(x)}' for k, x in v) + '}'
+	if isinstance(v, list):
+		return '[' + ','.join(_dump_pairs(x) for x in v) + ']'
+	return json.dumps(v)
+
+
+def _outside_codec(text: str, value: Any) -> str:
+	"""Why a text CPython decodes lies outside the documented domain of the codec model ('' = inside): white space other than
+	leading, floats / NaN / Infinity, lone surrogates, repeated keys."""
+	body = text.lstrip(' \t\n\r')
+	in_str = esc = False
+	for ch in body:
+		if in_str:
+			if esc:
+				esc = False
+			elif ch == '\\':
+				esc = True
+			elif ch == '"':
+				in_str = False
+		elif ch == '"':
+			in_str = True
+		elif ch in ' \t\n\r':
+			return 'inner-whitespace'
+
+	def walk(v: Any) -> str:
+		if isinstance(v, float):
+			return 'float'
+		if isinstance(v, str):
+			return 'lone-surrogate' if any(0xD800 <= ord(c) <= 0xDFFF for c in v) else ''
+		if isinstance(v, _Pairs):
+			keys = [k for k, _ in v]
+			if len(set(keys)) != len(keys):
+				return 'repeated-key'
+			return next((w for w in (walk(k) or walk(x) for k, x in v) if w), '')
+		if isinstance(v, list):
+			return next((w for w in map(walk, v) if w), '')
+		return ''
+	return walk(value)
+
+
+def real_loads(text: str) -> tuple[str, str]:
+	"""(`ok <hex of the compact re-serialisation>` | exception enum, reason why the text is outside the codec's domain or '')"""
+	try:
+		with tproj.run_budget(CALL_CPU_S):
+			v = json.loads(text, object_pairs_hook=_Pairs)
+	except tproj.RunBudgetExceeded:
+		return 'RunDoesNotEnd', ''
+	except Exception as e:  # noqa: BLE001 - the outcome class is the observation
+		return common.exc_enum(e), ''
+	return f'ok {hx(_dump_pairs(v))}', _outside_codec(text, v)
+
+
+LOADS_NOISE = ['{', '}', '[', ']', '"', ':', ',', '\\', '0', '1', '-', 'n', 'null', 'true', 'x', '\\u00e9', '\\ud83d\\ude00', '\\n', '\\/', '\\x', '\\u12', '01', '-0', '"a"', '\x01', 'é', '\U0001F600']
+
+
+def stream_loads(ctx: Ctx) -> Stream:
+	"""What `MetaHeader.from_json` hands to json.loads — a blank, then the compact dump of a header — and damaged versions of it:
+	the model's decoder must give CPython's value (pairs as written) and reject what CPython rejects."""
+	from rogw.tranp.data.meta.header import MetaHeader
+	rng = ctx.sub_rng('loads')
+	cases: list[tuple[Any, list[str], list[str]]] = []
+	skipped: Counter[str] = Counter()
+	for i in range(ctx.scale(500, 6000)):
+		k = rng.random()
+		try:
+			if k < 0.45:
+				text = MetaHeader(gen_module_meta(rng), gen_transpiler_meta(rng), gen_version(rng)).to_json()
+				kind = 'header'
+			else:
+				text = json.dumps(gen_json(rng, 3), separators=(',', ':'))
+				kind = 'value'
+		except Exception:  # noqa: BLE001 - the printers are observed by the header stream
+			continue
+		text = rng.choice(['', ' ', ' ', ' ', '  ', '\t ', '\n']) + text
+		if rng.random() < 0.45:
+			body = text
+			for _ in range(rng.randint(1, 2)):
+				j = rng.randrange(len(body) + 1)
+				m = rng.randrange(3)
+				body = body[:j] + body[j + 1:] if m == 0 else (body[:j] + rng.choice(LOADS_NOISE) + body[j:] if m == 1 else body[:j])
+			text, kind = body, kind + ':damaged'
+		real, outside = real_loads(text)
+		if outside:
+			skipped[outside] += 1
+			continue
+		cases.append(({'kind': kind}, [f'loadsm\t{hx(text)}'], [real]))
+	st = correspond_skip('loads', cases, classify=lambda d, r: [d['kind'], f"{d['kind']}→{r[0].split(' ')[0]}"])
+	st.histogram.update({f'outside-the-codec:{k}': v for k, v in skipped.items()})
+	st.note = ('the model decoder `loadsCodec` (Model/RunnerLoads.lean over Model/JsonCodec.lean) against json.loads(text, object_pairs_hook) on the texts from_json receives '
+		'(blank + compact dump of generated headers / JSON values) and on damaged versions; texts CPython decodes to floats, lone surrogates, repeated keys or with inner '
+		'white space are outside the codec (counted, not compared)')
+	return st
+
+
 def _real_eq_other() -> str:
 	from rogw.tranp.data.meta.header import MetaHeader
 	try:
@@ -1720,6 +1824,8 @@ STATEMENTS = {
 	'json_ends_with_brace': 'to_json() ends with the closing brace of its top-level object',
 	'header_slice': "for every header, body and every prefix in which the tag does not start, the text try_from_content hands to from_json is exactly ' ' + to_json()",
 	'header_rt': "try_from_content(pre + to_header_str() + '\\n' + body) == header, given that json.loads decodes this header's JSON (parser not modelled)",
+	'header_rt_codec': "header_rt with json.loads := loadsCodec (leading white space skipped, then the JSON codec parser of Model/JsonCodec.lean; stream `loads` ties it to CPython's decoder): try_from_content(pre + to_header_str() + '\\n' + body) == header for EVERY header over the model's JSON values — no hypothesis on the decoder (the model's json.dumps printer is proved equal to the codec's printer, whose parser inverts it)",
+	'loads_codec_sound': 'the decoder hypothesis LoadsSound of the history theorems (fixpoint_fresh_partial, version_bump, skip_implies_equal_header_inputs, …) holds for every environment whose json.loads is loadsCodec: all module lists, versions and sources',
 	'header_rt_no_newline_counterexample': 'without a line break after the header line the slice loses the closing brace (find() = -1 is taken as an end bound by rfind): statement false',
 	'generated_shapes': 'the statements of can_transpile / MetaHeader (__eq__, identity, to_json, __init__, from_json, to_header_str, try_from_content) / module_meta_factory / Py2Cpp.meta / try_load_meta_header / _run_impl / Config.force / Writer (__init__, put, flush, _flush), read from the source by the translator on every run, are the ones the model implements',
 	'compared_fields_generated': 'the header the model builds has exactly the generated compared fields (version, module.hash, module.path, transpiler.version, transpiler.module) and they carry the current inputs',
@@ -1747,7 +1853,7 @@ STATEMENTS = {
 
 
 def build_streams(ctx: Ctx) -> list[Stream]:
-	return [stream_strprims(ctx), stream_header(ctx), stream_paths(ctx), stream_metafile(ctx), stream_writer(ctx), stream_runner(ctx)]
+	return [stream_strprims(ctx), stream_header(ctx), stream_loads(ctx), stream_paths(ctx), stream_metafile(ctx), stream_writer(ctx), stream_runner(ctx)]
 
 
 def build_searches(ctx: Ctx) -> list[SearchResult]:
@@ -1800,7 +1906,7 @@ def run(ctx: Ctx) -> int:
 				'flag semantics (force_flag, force_config) — all on the model',
 			'proved_false': 'fix-point law in general (fixpoint_counterexample: stale dependants; fixpoint_shared_path_counterexample), '
 				'path injectivity under prefix/glob rules (paths_counterexample), header read-back without trailing line break (header_rt_no_newline_counterexample)',
-			'correspondence_only': 'json.loads (driver-side parser tied by the header stream), the transpiler body, file-system semantics (file vs directory conflicts are excluded from generated configurations)',
+			'correspondence_only': 'json.loads on malformed / white-space-carrying texts (driver-side parser tied by the header stream; on the texts the runner writes the decoder is the proved loadsCodec, stream `loads`), the transpiler body, file-system semantics (file vs directory conflicts are excluded from generated configurations)',
 			'search_only': 'that real outputs depend on imported modules (fix-point search on import graphs); that the law holds on graphs without imports',
 		},
 		assumptions=[
@@ -1808,7 +1914,7 @@ def run(ctx: Ctx) -> int:
 			'Writer.put/flush = whole-content write: a flush replaces the file by the buffer (model World.write) — tied by the writer stream and pinned by generated_shapes (open(..., mode=\'wb\'))',
 			'version strings are non-empty (an empty Versions.app would be replaced on reading: `app_version or Versions.app`)',
 			'deps m over-approximates the modules whose source the output of m reads (OutDeps); the forced run can transpile the stale modules',
-			"json.loads decodes the headers the runner itself writes (hypothesis LoadsSound; the JSON parser is not modelled)",
+			"json.loads decodes the headers the runner itself writes (hypothesis LoadsSound of the history theorems): DISCHARGED for the modelled decoder loadsCodec (loads_codec_sound, header_rt_codec); what remains assumed is that CPython's json.loads agrees with loadsCodec on these texts (stream `loads`, and C15's codec streams)",
 			'glob conditions use only [A-Za-z0-9_/-.*]: other regex metacharacters answer out-of-model',
 			'JSON values without floats / NaN / lone surrogates',
 		],
